@@ -31,19 +31,44 @@ def _sha(paths, extra=""):
     return h.hexdigest()[:24]
 
 
-def _spec_files():
-    out = []
+def _spec_files(module=None):
+    """The specification files a module depends on (transitive EXTENDS / INSTANCE)."""
+    import re
+    index = {}
     for root, _, fs in os.walk(SPECS):
-        for f in sorted(fs):
+        for f in fs:
             if f.endswith(".tla"):
-                out.append(os.path.join(root, f))
-    return sorted(out)
+                index[f[:-4]] = os.path.join(root, f)
+    if module is None:
+        return sorted(index.values())
+    seen, todo = {}, [os.path.basename(module)]
+    while todo:
+        m = todo.pop()
+        if m in seen or m not in index:
+            continue
+        seen[m] = index[m]
+        with open(index[m]) as fh:
+            txt = fh.read()
+        for line in re.findall(r"^\s*EXTENDS\s+(.*)$", txt, re.M):
+            todo += [x.strip() for x in line.split(",")]
+        todo += re.findall(r"INSTANCE\s+(\w+)", txt)
+    return sorted(seen.values())
+
+
+def _prune(prefix, keep=2):
+    fs = sorted((f for f in os.listdir(CACHE) if f.startswith(prefix)),
+                key=lambda f: os.path.getmtime(os.path.join(CACHE, f)), reverse=True)
+    for f in fs[keep:]:
+        try:
+            os.remove(os.path.join(CACHE, f))
+        except OSError:
+            pass
 
 
 def tlc_cached(ctx, module, cfg, timeout=3000, tag=None, workers=None, min_exports=100):
     """Design check + export of a generator module, cached by specification content."""
     os.makedirs(CACHE, exist_ok=True)
-    key = _sha(_spec_files() + [os.path.join(SPECS, cfg)], module + cfg)
+    key = _sha(_spec_files(module) + [os.path.join(SPECS, cfg)], module + cfg)
     path = os.path.join(CACHE, "tlc_%s_%s.out" % (os.path.basename(cfg), key))
     if os.path.exists(path) and os.environ.get("VERIF_NOCACHE") != "1":
         r = TLCResult(path, 0, 0.0)
@@ -59,6 +84,7 @@ def tlc_cached(ctx, module, cfg, timeout=3000, tag=None, workers=None, min_expor
     tmp = path + ".tmp%d" % os.getpid()
     shutil.copy(r.path, tmp)
     os.replace(tmp, path)
+    _prune("tlc_%s_" % os.path.basename(cfg))
     r.path = path
     return r
 
@@ -81,6 +107,7 @@ def replay_cached(ctx, binary, args, export_path, timeout=3000):
     with open(tmp, "w") as fh:
         fh.write("".join(l + "\n" for l in h["stdout"].splitlines() if l.startswith("VH ")))
     os.replace(tmp, path)
+    _prune("replay_%s_" % os.path.basename(binary), keep=24)
     h["cached"] = False
     return h
 
